@@ -1,7 +1,7 @@
 (* Per-cognate-set alignment of a wordlist: model of lingpy.align.sca.Alignments
    (plain mode): add_alignments (sca.py:639-700: the etymological dictionary groups the
    word ids by cognate id; within a set the ids are ordered by language column, then by
-   row order; only sets with more than one member become alignments), align
+   word id; only sets with more than one member become alignments), align
    (sca.py:926-1001: every set is aligned by a Multiple object and its alm_matrix is
    stored) and _msa2col (sca.py:752-803: the rows are written to the alignment column by
    word id, every other word gets its segments).
@@ -22,10 +22,14 @@ Record word := {
 }.
 Definition wordlist := list word.      (* in the iteration order of the wordlist *)
 
-(* etd[cog] = one list of ids per language column, filled in row order; seqids = their
-   concatenation: the members of the set, stably sorted by language column *)
+(* etd[cog] = one list of ids per language column; seqids = the concatenation of the
+   columns' lists, each in ascending word-id order (seqids += sorted(t)): the members of the
+   set sorted by word id, then stably sorted by language column *)
+Definition by_id (ws : list word) : list word :=
+  map snd (sort_keys (map (fun w => (w_id w, w)) ws)).
+
 Definition set_of (wl : wordlist) (cog : nat) : list word :=
-  map snd (sort_keys (map (fun w => (w_doc w, w)) (filter (fun w => w_cog w =? cog) wl))).
+  map snd (sort_keys (map (fun w => (w_doc w, w)) (by_id (filter (fun w => w_cog w =? cog) wl)))).
 
 (* a set becomes an alignment iff its key is not 0 and it has more than one member *)
 Definition multi (wl : wordlist) (cog : nat) : bool :=
